@@ -351,7 +351,7 @@ func workerMain(prop *Property, build, verif, tier string, seed int64, worker, w
 		}
 		sc := &Scenario{Format: "crs-sim-scenario/1", Prop: prop.ID, Seed: seed, Worker: worker, Tier: tier, World: w, Params: pj}
 		stats.curVec, stats.curPermuted = 0, false
-		viol, nontrivial, key := prop.Eval(sc, sim)
+		viol, nontrivial, key := evalGuarded(prop, sc, sim)
 		stats.mu.Lock()
 		stats.Scenarios++
 		stats.SetHash ^= hash64(fmt.Sprintf("%x|%s", w.Hash(), pj))
@@ -778,7 +778,7 @@ func replayMain(build, verif, path string, quiet bool) int {
 				panic(r)
 			}
 		}()
-		viol, _, _ = prop.Eval(sc, sim)
+		viol, _, _ = evalGuarded(prop, sc, sim)
 	}()
 	known := loadKnown(verif)
 	exit := 0
